@@ -67,8 +67,9 @@ def coq_event(ev, txt_hex="", tick_to=None):
     if k == "peerFrag": return f"(EPeerFrag {b(ev[1])} {b(ev[2])})"
     if k == "peerHead": return "EPeerHead"
     if k == "peerTail": return "EPeerTail"
-    if k in ("beginMessageFrame", "sendMessageFrameData", "sendPrepared"):
-        raise Unmodelled(f"event {k}: raw streaming / prepared-message API (oracle-only family)")
+    if k == "sendPrepared": return "ESendPrepared"
+    if k in ("beginMessageFrame", "sendMessageFrameData"):
+        raise Unmodelled(f"event {k}: raw streaming API (oracle-only family)")
     if k in ("sendMessageSync", "sendChopped", "tickus"):
         raise Unmodelled(f"event {k}: the send queue is not in the Gallina model (oracle-only family)")
     if k == "tick": return f"(ETick {int(ev[1])})"
@@ -262,6 +263,8 @@ def oracle(case, res, fw):
         raised = [o[2] for o in s["out"] if o[1] == "raised"]
         if ev[0] == "sendMessage" and st_before == "CLOSED" and raised != ["Disconnected"]:
             bad.append((f"{role}/sendMessage-after-close", f"step {i}: raised {raised}"))
+        if ev[0] == "sendPrepared" and st_before != "OPEN" and s["applied"] and raised != ["Disconnected"]:
+            bad.append(("sendPreparedMessage/no-state-guard", f"step {i}: sendPreparedMessage in state {st_before} raised {raised}, wrote {[o[1:] for o in s['out'] if o[1][0] == 'w']}"))
         legal_args = ev[0] != "sendClose" or ((ev[1] is None or ev[1] == 1000 or 3000 <= ev[1] <= 4999) and not (ev[1] is None and ev[2] is not None))
         if ev[0] in ("sendPing", "sendPong", "sendClose") and legal_args and st_before == "CLOSED" and s["out"]:
             bad.append((f"{role}/{ev[0]}-after-close", f"step {i}: {s['out']}"))
@@ -281,7 +284,7 @@ TICKS = [["tickrel", "next"], ["tickrel", 125], ["tickrel", 875], ["tickrel", 10
 def alphabet(cfg=None):
     """the full event alphabet of the quantifier; ticks are relative: to the next pending deadline, just short of a
     second, a full second (the driver resolves them to absolute times, which is what the model gets)"""
-    return ([["hs"], ["badhs"]] + CLOSE_VARIANTS + [["sendMessage"], ["sendPing"], ["sendPong"],
+    return ([["hs"], ["badhs"]] + CLOSE_VARIANTS + [["sendMessage"], ["sendPrepared"], ["sendPing"], ["sendPong"],
              ["beginMessage"], ["sendMessageFrame"], ["endMessage"]] + PEER_CLOSE +
             [["peerData"], ["peerFrag", False, False], ["peerFrag", True, False], ["peerFrag", True, True], ["peerHead"], ["peerTail"],
              ["peerPing"], ["peerPong", True], ["peerPong", False], ["peerViolation"], ["peerInvalid"]] +
@@ -474,8 +477,8 @@ def run(ck):
                    "peer data, peer violation, tick to the next pending deadline, tick +1 s, peer TCP drop, delivery of our own "
                    "drop} x role x failByDrop (echoCloseCodeReason=True: one shorter); (2) the timeout grid closeHandshakeTimeout x "
                    "serverConnectionDropTimeout in {0,1,2} s x role x failByDrop x echo on all core sequences of length <= 2 (3) and a "
-                   "third of the grid one longer; (3) ALL sequences of length <= 2 (thorough 3) over the full 38-event alphabet "
-                   "{handshake ok/bad, sendClose x6 argument shapes, sendMessage/Ping/Pong, beginMessage/sendMessageFrame/endMessage, peer close valid/empty/1-octet/reserved "
+                   "third of the grid one longer; (3) ALL sequences of length <= 2 (thorough 3) over the full 39-event alphabet "
+                   "{handshake ok/bad, sendClose x6 argument shapes, sendMessage/sendPreparedMessage/Ping/Pong, beginMessage/sendMessageFrame/endMessage, peer close valid/empty/1-octet/reserved "
                    "code/bad UTF-8, peer data/first, middle and last fragment/frame head/frame tail/ping/pong matching or not/violation/invalid payload, 4 kinds of tick, TCP drop clean/"
                    "unclean, own drop}; (4) from CONNECTING (no handshake forced) all sequences of length <= 4 (5) over {handshake "
                    "ok/bad, sendClose, sendMessage, tick, drops} x openHandshakeTimeout {0,1,2} s; (5) random walks of length <= 12 "
@@ -483,7 +486,7 @@ def run(ck):
                    "peer and through sendClose, alone and in pairs, x role x failByDrop x echo; (8) client behind an explicit proxy: all "
                    "sequences of length <= 3 (4) from PROXY_CONNECTING over {proxy 2xx / 403, handshake ok/bad, sendClose, ticks, drops}; "
                    "(9) the streaming send API: all sequences of length <= 3 (4), and one longer after "
-                   "beginMessage, over {beginMessage, sendMessageFrame, endMessage, sendMessage, sendPing, sendClose, peer close, peer "
+                   "beginMessage, over {beginMessage, sendMessageFrame, endMessage, sendMessage, sendPreparedMessage, sendPing, sendClose, peer close, peer "
                    "violation, peer ping, tick, own drop} x role x failByDrop; (10) ORACLE ONLY: beginMessageFrame / "
                    "sendMessageFrameData used separately and sendPreparedMessage in every state; "
                    "(6) ORACLE ONLY (not in the "
@@ -559,7 +562,7 @@ def run(ck):
     ck.bump("family:boundary-codes", len(codes)); ck.bump("family:proxy", len(proxy))
     # (9) every send API in every state, in particular the streaming API with the close beginning mid-message (modelled):
     #     all sequences of length <= 4 (5) over the alphabet below, role x failByDrop
-    STREAM = [["beginMessage"], ["sendMessageFrame"], ["endMessage"], ["sendMessage"], ["sendPing"], ["sendClose", 1000, None],
+    STREAM = [["beginMessage"], ["sendMessageFrame"], ["endMessage"], ["sendMessage"], ["sendPrepared"], ["sendPing"], ["sendClose", 1000, None],
               ["peerClose", 1000, "6f6b"], ["peerViolation"], ["peerPing"], ["tickrel", "next"], ["ownDrop"]]
     sroles = [base_cfg(role=r, failByDrop=f) for r in ("server", "client") for f in (True, False)]
     stream = [dict(cfg=cfg, events=evs) for cfg in sroles for evs in seqs(STREAM, 3 if quick else 4, [["hs"]])]
